@@ -751,9 +751,20 @@ func (r runner[K, V]) GoRoundtrip(kt string, entries []string) string {
 		orders[1][n-1-i] = want[i]
 		orders[2][(i+n/2+1)%imax(n, 1)] = want[i]
 	}
+	items0 := ""
 	for oi, o := range orders {
 		var dx tlb.HashmapE[K, V]
 		r.putAll(&dx, o)
+		// the slice kept by Put: the same listing for every insertion order, ascending in the key family's Compare order
+		itx := r.items(&dx)
+		if oi == 0 {
+			items0 = itx
+			if f := compareOrderViolation(kt, dx.Items(), r.kc.show); f != "" {
+				return "FAIL put-order " + f
+			}
+		} else if itx != items0 {
+			return fmt.Sprintf("FAIL put-order-dependent order=%d got=%s want=%s", oi, clip(itx), clip(items0))
+		}
 		cx, err := r.marshal(dx)
 		if err != nil {
 			return fmt.Sprintf("FAIL marshal-order%d %v", oi, err)
@@ -764,6 +775,27 @@ func (r runner[K, V]) GoRoundtrip(kt string, entries []string) string {
 		}
 	}
 	return "ok"
+}
+
+// compareOrderViolation: the keys of a dictionary filled by Put alone must ascend in the order of the key family —
+// numeric for UintN / IntN, byte order (= bit order) for BitsN and the address key. Computed on the key texts.
+func compareOrderViolation[K keyC, V any](kt string, items []tlb.HashmapItem[K, V], show func(K) string) string {
+	var prev *big.Int
+	prevText := ""
+	for i, it := range items {
+		txt := show(it.Key)
+		var v *big.Int
+		if kt[0] == 'u' || kt[0] == 'i' {
+			v, _ = new(big.Int).SetString(txt, 10)
+		} else {
+			v = new(big.Int).SetBytes(h.MustUnHex(txt))
+		}
+		if i > 0 && prev.Cmp(v) >= 0 {
+			return "keys " + prevText + " then " + txt
+		}
+		prev, prevText = v, txt
+	}
+	return ""
 }
 
 // GoSpec: Unmarshal of a dictionary tree built by an independent encoder (any label form on any edge) lists exactly
